@@ -1289,6 +1289,11 @@ class cmap_format_12_or_13(CmapSubtable):
             cmap[code] = gid
 
         charCodes.sort()
+        if not charCodes:
+            # an empty mapping: the header alone, with no groups
+            return struct.pack(
+                ">HHLLL", self.format, self.reserved, 16, self.language, 0
+            )
         index = 0
         startCharCode = charCodes[0]
         startGlyphID = cmap[startCharCode]
